@@ -88,6 +88,21 @@ def coq_spec_check(ctx, results, report=True, what="weights"):
             ctx.count("theorem_dag_not_applicable")
             continue
         ctx.count("theorem_dag_applicable")
+        if what == "verdict":
+            if len(sp) < 4 or sp[2] != 1:
+                ctx.count("theorem_dag_fuel_check_fails")
+                continue
+            for (o, a, b) in r["ordered"]:
+                if b is not None and (b[0] == "ok") != (sp[3] == 1):
+                    raise RuntimeError("the extracted model contradicts the theorem dag_accepts_iff on %r" % (r["m"],))
+                ctx.count("theorem_dag_verdicts_compared")
+                if (a[0] == "ok") != (sp[3] == 1) and report:
+                    ctx.violation("verdict-differs-from-proved-spec",
+                                  {"model": r["m"], "order": o, "impl": a[0] if a[0] == "ok" else a, "spec_accepts": sp[3] == 1,
+                                   "why": "on a model without cycles the implementation's verdict differs from Spec/GraphWeights.accepts, "
+                                          "which Model/WWeights.assign_weights is proved to follow for every start order"})
+                    break
+            continue
         if what == "weights":
             want = {T(x[0]): dict((T(k), v) for k, v in x[1]) for x in sp[1]}
             read = lambda g, nid: dict(g["nodes"].get(nid, {}).get("weights", []))
